@@ -21,9 +21,9 @@ Arguments firstn : simpl never.
 (* Spec results of the leaves are never SFuel *)
 Lemma one_char_def w ok p sg : one_char w ok p sg <> SFuel.
 Proof. unfold one_char. destruct (char_here w p) as [[c n]|]; [destruct (ok c)|]; discriminate. Qed.
-Lemma lit_def w s p (sg sg' : list str) : match lit w s p with Some q => SMatch q sg' [] | None => SFail end <> SFuel.
+Lemma lit_def w s p (sg' : list str) : match lit w s p with Some q => SMatch q sg' [] | None => SFail end <> SFuel.
 Proof. destruct (lit w s p); discriminate. Qed.
-Lemma lit_all_def w l p (sg sg' : list str) : match lit_all w l p with Some q => SMatch q sg' [] | None => SFail end <> SFuel.
+Lemma lit_all_def w l p (sg' : list str) : match lit_all w l p with Some q => SMatch q sg' [] | None => SFail end <> SFuel.
 Proof. destruct (lit_all w l p); discriminate. Qed.
 Lemma ite_def (b : bool) p (sg : list str) f : (if b then SMatch p sg f else SFail) <> SFuel.
 Proof. destruct b; discriminate. Qed.
@@ -65,10 +65,10 @@ Proof.
   - (* SOI *) exact (ite_def _ _ _ _).
   - (* PEEK *) change (match sg with top :: _ => match lit w top p with Some q => SMatch q sg [] | None => SFail end | [] => SFail end <> SFuel).
     destruct sg; [discriminate|apply lit_def].
-  - (* PEEK_ALL *) exact (lit_all_def w sg p sg sg).
+  - (* PEEK_ALL *) exact (lit_all_def w sg p sg).
   - (* POP *) change (match sg with top :: r => match lit w top p with Some q => SMatch q r [] | None => SFail end | [] => SFail end <> SFuel).
     destruct sg; [discriminate|apply lit_def].
-  - (* POP_ALL *) exact (lit_all_def w sg p sg []).
+  - (* POP_ALL *) exact (lit_all_def w sg p []).
   - (* DROP *) change (match sg with _ :: r => SMatch p r [] | [] => SFail end <> SFuel). destruct sg; discriminate.
   - (* NEWLINE *)
     change (match lit w [10%N] p with Some q => SMatch q sg [] | None =>
@@ -159,6 +159,117 @@ Proof.
   - cbn. split; [apply pv_skip|now apply pvx].
   - intros p0 sg0. apply sim_rep_unit; auto. apply fwd.
   - intros p0 sg0. now apply term_rep_unit.
+Qed.
+
+Ltac definite :=
+  apply tdef_definite; cbn [eval]; unfold one_char, char_here, lit;
+  repeat match goal with
+         | |- context [match ?x with _ => _ end] => destruct x
+         end; discriminate.
+
+Lemma term_user m n a emit p sg : term_at m -> is_builtin n = false -> ident_ok OG uranges pp n = true ->
+  tdef (vm_call n) a emit p sg (ev (S m) a emit (EIdent n) p sg) (S m).
+Proof.
+  intros IH NB IO. rewrite (eval_user OG extras uranges w m a emit n p sg NB), (vm_call_user OG uranges n NB).
+  unfold ident_ok in IO. rewrite NB in IO. unfold has_orule in *.
+  destruct (find_orule OG n) as [r|] eqn:Ef.
+  - destruct (find_orule_some OG n r Ef) as [Hin Hn].
+    pose proof (go_frag _ _ _ _ HG r Hin) as Fr. pose proof (go_rok _ _ _ _ HG r Hin) as Ro.
+    pose proof (go_lits _ _ _ _ HG r Hin) as Li.
+    assert (B : forall a2, tdef (vm_expr (oexpr_of r)) a2 emit p sg (ev m a2 emit (embed (oexpr_of r)) p sg) m).
+    { intros a2. apply IH; assumption. }
+    apply (tdef_call cfg E w _ (vm_rule_body OG uranges r)); [apply env_lookup; [apply (go_nodup _ _ _ _ HG)|exact Ef]|].
+    unfold vm_rule_body. rewrite Hn. change (is_special_name n) with (is_special n).
+    unfold rule_mode. destruct (is_special n), (oty r);
+      try (apply (tdef_le cfg E w _ _ _ _ _ _ (S (S m))); [lia|apply tdef_rule, tdef_atomic, B]);
+      try (apply (tdef_le cfg E w _ _ _ _ _ _ (S (S m))); [lia|apply tdef_atomic, tdef_rule, B]).
+    + apply (tdef_le cfg E w _ _ _ _ _ _ (S m)); [lia|]. rewrite sres_node_false. apply tdef_atomic, B.
+    + apply (tdef_le cfg E w _ _ _ _ _ _ (S m)); [lia|]. apply tdef_rule, B.
+    + apply (tdef_le cfg E w _ _ _ _ _ _ m); [lia|]. rewrite sres_node_false. apply B.
+  - cbn [orb] in IO. destruct (uranges n) as [rs|]; [|discriminate]. apply tdef_definite. apply one_char_def.
+Qed.
+
+Lemma term_step m : term_at m -> term_at (S m).
+Proof.
+  intros IH e a emit p sg Fr Ro Li.
+  destruct e; cbn [embed VmCompile.vm_expr]; cbn [Refine6.in_fragment Refine6.rok lits_valid] in Fr, Ro, Li.
+  - (* OStr *) definite.
+  - (* OInsens *) definite.
+  - (* ORange *) definite.
+  - (* OIdent *)
+    destruct (is_builtin n) eqn:B.
+    + apply tdef_definite. now apply builtin_definite.
+    + now apply term_user.
+  - (* OPeekSlice *)
+    apply tdef_definite. cbn [eval]. rewrite (spec_peek_slice w). unfold slice_res.
+    destruct (constrain_idxs _ _ _) as [[a0 b0]|]; [|discriminate]. destruct (Nat.leb b0 a0); [discriminate|].
+    destruct (lit_all _ _ _); discriminate.
+  - (* OPosPred *) cbn [eval]. apply (tdef_lookahead cfg E w true). now apply IH.
+  - (* ONegPred *) cbn [eval]. apply (tdef_lookahead cfg E w false). now apply IH.
+  - (* OSeq *)
+    apply andb_true_iff in Fr. destruct Fr as [F1 F2]. apply andb_true_iff in Ro. destruct Ro as [R1 R2]. destruct Li as [L1 L2].
+    assert (PB : forall p0 sg0, pbsim (PAndThen (vm_expr e1) vm_skip) a emit p0 sg0
+                   (sres_bind (ev m a emit (embed e1) p0 sg0) (fun p1 sg1 => skip_with G (ev m) m a emit p1 sg1))).
+    { intros p0 sg0. apply pbsim_andthen; [exact Hcfg|exact HE|now apply pvx| |].
+      - eapply psim_pbsim. now apply fwd.
+      - intros p1 sg1 f1 _. eapply psim_pbsim. apply sim_skip; auto. apply fwd. }
+    eapply tdef_eq; [|apply (tdef_le cfg E w _ _ _ _ _ _ (S (S m))); [lia|]; apply tdef_sequence;
+      apply (tdef_andthen cfg E w pp Hcfg HE _ _ a emit p sg
+               (sres_bind (ev m a emit (embed e1) p sg) (fun p1 sg1 => skip_with G (ev m) m a emit p1 sg1))
+               (fun p2 sg2 => ev m a emit (embed e2) p2 sg2));
+      [cbn; split; [now apply pvx|apply pv_skip]
+      |apply PB
+      |apply (tdef_le cfg E w _ _ _ _ _ _ (S m)); [lia|];
+       apply (tdef_andthen cfg E w pp Hcfg HE _ _ a emit p sg (ev m a emit (embed e1) p sg)
+                (fun p1 sg1 => skip_with G (ev m) m a emit p1 sg1));
+        [now apply pvx
+        |eapply psim_pbsim; now apply fwd
+        |now apply IH
+        |intros p1 sg1 f1 _; now apply term_skip]
+      |intros p2 sg2 f2 _; now apply IH]].
+    cbn [eval]. destruct (eval _ _ _ _ m a emit (embed e1) p sg) as [p1 sg1 f1| |]; cbn [sres_bind]; auto.
+    destruct (skip_with _ _ _ _ _ _ _) as [p2 sg2 f2| |]; cbn [sres_bind]; auto.
+    destruct (eval _ _ _ _ m a emit (embed e2) p2 sg2) as [p3 sg3 f3| |]; cbn [sres_bind]; auto.
+    now rewrite app_assoc.
+  - (* OChoice *)
+    apply andb_true_iff in Fr. destruct Fr as [F1 F2]. apply andb_true_iff in Ro. destruct Ro as [Ro R3].
+    apply andb_true_iff in Ro. destruct Ro as [R1 R2]. destruct Li as [L1 L2].
+    cbn [eval].
+    apply (tdef_orelse cfg E w pp Hcfg HE (Cl e1)); [now apply pvx|now apply cl_of_K|now apply fwd|now apply IH|now apply IH].
+  - (* OOpt *)
+    apply andb_true_iff in Ro. destruct Ro as [R1 R2]. cbn [eval]. apply tdef_optional. now apply IH.
+  - (* ORep *)
+    apply andb_true_iff in Ro. destruct Ro as [R1 R2]. cbn [eval]. unfold rep_from_with. rewrite rep_eq.
+    apply (tdef_le cfg E w _ _ _ _ _ _ (S (S (S m)))); [lia|].
+    apply tdef_sequence. apply tdef_optional.
+    apply (tdef_andthen cfg E w pp Hcfg HE); [now apply pvx| | |].
+    + eapply psim_pbsim. now apply fwd.
+    + now apply IH.
+    + intros p1 sg1 f1 _. now apply term_rep_loop.
+  - (* ORepOnce *)
+    apply andb_true_iff in Fr. destruct Fr as [Hx F1]. cbn [eval]. rewrite (if_true_eq extras _ _ Hx).
+    unfold rep_from_with. rewrite rep_once_eq.
+    apply (tdef_le cfg E w _ _ _ _ _ _ (S (S m))); [lia|].
+    apply tdef_sequence. apply (tdef_andthen cfg E w pp Hcfg HE); [now apply pvx| | |].
+    + eapply psim_pbsim. now apply fwd.
+    + now apply IH.
+    + intros p1 sg1 f1 _. now apply term_rep_loop.
+  - (* OSkip *) apply tdef_definite. cbn [eval]. discriminate.
+  - (* OPush *) cbn [eval]. apply tdef_push. now apply IH.
+  - (* OPushLiteral *) apply tdef_definite. cbn [eval]. discriminate.
+  - (* ONodeTag *)
+    apply andb_true_iff in Fr. destruct Fr as [F1 F2]. cbn [eval]. apply tdef_tag. now apply IH.
+  - (* ORestoreOnErr *)
+    apply (tdef_impl cfg E w _ _ _ _ _ (ev m a emit (embed e) p sg)).
+    + intros N. rewrite (eval_mono G extras (uprop uranges) w m (S m) ltac:(lia) a emit (embed e) p sg _ eq_refl N). exact N.
+    + apply tdef_restore. now apply IH.
+Qed.
+
+(* TERMINATION TRANSFERS from the VM to the Spec *)
+Theorem vm_terminates_spec : forall m, term_at m.
+Proof.
+  induction m as [|m IH]; [|now apply term_step].
+  intros e a emit p sg _ _ _ s vr R (N & k & L & A) _. assert (k = 0) by lia. subst k. cbn in A. congruence.
 Qed.
 
 End TermMain.
